@@ -10,3 +10,6 @@ import subprocess, build_repo, vlib
 b = build_repo.get_build("default")
 subprocess.run(["python3", os.path.join(vlib.VERIF, "tools", "gen_rolling_table.py"),
                 os.path.join(b, "src", "rolling_hash", "rolling_hash2_table.h"), vlib.LEAN], check=True)
+
+import gen_selftest
+gen_selftest.main(["--quiet"])
